@@ -1,4 +1,5 @@
 import AvgProofs.MomentsTree
+import AvgProofs.MomentsFold
 
 /-!
 # C02 - `merge` is equivalent to having seen the concatenated data (Mean, Variance, Skewness, Kurtosis)
@@ -154,6 +155,20 @@ example :
         Variance.new Variance.add Variance.merge = ⟨⟨3, 4⟩, 14⟩ := by
   rw [mtree_eval_variance]; norm_num [MTree.flatten, mean, sumPow]
 
+/-- `define_moments!` estimators of every order `N`: every binary merge tree over every chunking
+yields exactly (count, mean, [Σ(x-mean)^p, p = 2..N]) of the whole sequence, hence the single-pass
+estimator; `len()` is the total number of observations. -/
+theorem mtree_eval_moments (N : Nat) (t : MTree K) :
+    t.eval (Moments.new N) (Moments.add N) (Moments.merge N) = MSpec.canonM N t.flatten
+    ∧ t.eval (Moments.new N) (Moments.add N) (Moments.merge N)
+        = t.flatten.foldl (Moments.add N) (Moments.new N)
+    ∧ (t.eval (Moments.new N) (Moments.add N) (Moments.merge N)).len = t.flatten.length := by
+  have h : t.eval (Moments.new N) (Moments.add N) (Moments.merge N) = MSpec.canonM N t.flatten :=
+    MSpec.moments_mtree N t
+  refine ⟨h, ?_, ?_⟩
+  · rw [h, MSpec.moments_fold]
+  · rw [h]; rfl
+
 end Props.C02
 
 #print axioms Props.C02.kurtosis_merge_canon
@@ -171,3 +186,4 @@ end Props.C02
 #print axioms Props.C02.mtree_congr
 #print axioms Props.C02.mtree_statistics
 #print axioms Props.C02.mtree_inner_bitwise
+#print axioms Props.C02.mtree_eval_moments
